@@ -459,6 +459,53 @@ GOLDEN["golden_normalize.json"] = (NORMALIZE_SPEC, [
 ])
 
 
+_LW = "zydeco_stackir::sps::lower::"
+_CV2 = "zydeco_stackir::sps_low::convert::SpsLowConverter::<'a>::"
+LOWERING_SPEC = {
+    "calls": [("lower", r"sps::lower::Lower>::lower$"), ("lower_into", r"::lower_into$"), ("scoped", r"ValuePlan::<.*>::scoped$"),
+              ("plan", r"ValuePlan::<T>::(pure|map|sequence|with_application|with_binding)$"),
+              ("build", r"Construct<.*>>::build$|::build$"), ("is_coprod_match", r"::is_coprod_match$"),
+              ("is_coprod_pattern", r"::is_coprod_pattern$"), ("projection_binding", r"::projection_binding$"),
+              ("product", r"Lowerer::<'a>::product_(arity|fields|layout)$"), ("field_class", r"::field_class$"),
+              ("alloc", r"::alloc_(projection_def|pure_result|capture|def|label|like)$"),
+              ("translate", r"SpsLowConverter::<'a>::translate_\w+$"), ("extend_env", r"::extend_env$"),
+              ("renamed_def", r"::renamed_def$"), ("translated_var", r"::translated_var$"),
+              ("sorted_free_vars", r"::sorted_free_vars$"), ("capture_bindings", r"::capture_bindings$"),
+              ("captured", r"::captured_(pattern|value_inside|value_outside)$"), ("product_value", r"::build_product_(value|pattern)$"),
+              ("singleton", r"Context::<.*>::singleton$|::singleton$"), ("for_role", r"Builtin::for_role$"),
+              ("make", r"Builtin::make_(operator|function)$"), ("from_vec", r"ConsN::<.*>::from_vec$"),
+              ("push", r"Vec::<T, A>::push$"), ("insert", r"::insert$|::insert_def$"), ("get", r"HashMap::<K, V, S(, A)?>::get$")],
+    "ctors": [], "assign": [r"env", r"stack"], "branch_ifs": True, "branch_matches": True, "returns": True, "values": True,
+}
+GOLDEN["golden_lowering.json"] = (LOWERING_SPEC, [
+    ("sps Lower for VPatId", "<zydeco_statics::syntax::VPatId as %sLower>::lower" % _LW, "seq"),
+    ("sps Lower for ValueId", "<zydeco_statics::syntax::ValueId as %sLower>::lower" % _LW, "seq"),
+    ("sps Lower for Vec<ValueId>", "<alloc::vec::Vec<zydeco_statics::syntax::ValueId> as %sLower>::lower" % _LW, "seqwhole"),
+    ("sps Lower for CompuId", "<zydeco_statics::syntax::CompuId as %sLower>::lower" % _LW, "seq"),
+    ("sps ValuePlan::lower_into", _LW + "ValuePlan::<zydeco_stackir::syntax::ValueId>::lower_into", "seqwhole"),
+    ("sps ValuePlan::scoped", _LW + "ValuePlan::<zydeco_stackir::syntax::ValueId>::scoped", "seqwhole"),
+    ("sps ValuePlan::sequence", _LW + "ValuePlan::<T>::sequence", "seqwhole"),
+    ("sps ValuePlan::map", _LW + "ValuePlan::<T>::map", "seqwhole"),
+    ("sps projection_binding", _LW + "Lowerer::<'a>::projection_binding", "seqwhole"),
+    ("sps RootLowerer::run", "<%sRootLowerer<'_> as zydeco_utils::pass::CompilerPass>::run" % _LW, "seqwhole"),
+    ("sps BuiltinRootLowerer::run", "<%sBuiltinRootLowerer<'_> as zydeco_utils::pass::CompilerPass>::run" % _LW, "seqwhole"),
+    ("sps BuiltinPackageLowering::lower", _LW + "BuiltinPackageLowering::lower", "seq"),
+    ("low translate_pattern", _CV2 + "translate_pattern", "seq"),
+    ("low translate_value", _CV2 + "translate_value", "seq"),
+    ("low translate_stack", _CV2 + "translate_stack", "seq"),
+    ("low translate_compu", _CV2 + "translate_compu", "seq"),
+    ("low translate_closure", _CV2 + "translate_closure", "seqwhole"),
+    ("low translate_continuation", _CV2 + "translate_continuation", "seqwhole"),
+    ("low translate_force", _CV2 + "translate_force", "seqwhole"),
+    ("low translate_return", _CV2 + "translate_return", "seqwhole"),
+    ("low translate_fix", _CV2 + "translate_fix", "seqwhole"),
+    ("low extend_env", _CV2 + "extend_env", "seqwhole"),
+    ("low renamed_def", _CV2 + "renamed_def", "seqwhole"),
+    ("low translated_var", _CV2 + "translated_var", "seqwhole"),
+    ("low convert", _CV2 + "convert", "seqwhole"),
+])
+
+
 _IN = "zydeco_surface::textual::intention::"
 INTENT_SPEC = {
     "calls": [("line_extent", r"SurfaceIntentions::line_extent$"), ("presentation_start", r"SurfaceIntentions::presentation_start$"),
